@@ -330,17 +330,16 @@ func FileWrites(path string) int {
 
 var nowNs int64
 
-// ClockStep advances the virtual clock by sec seconds + ms milliseconds and returns the value
-// time.Duration.Seconds() yields for that step (computed exactly as the standard library does).
+// ClockStep advances the virtual clock by sec seconds + ms milliseconds (0 <= ms < 1000) and
+// returns the value time.Duration.Seconds() yields for that step.
 func ClockStep(sec, ms int) float64 {
-	dt := float64(sec) + float64(ms*1000000)/1e9
-	clockAdvance(dt, int64(sec)*1000000000+int64(ms)*1000000)
-	return dt
+	clockAdvance(sec, ms)
+	return float64(sec) + float64(ms*1000000)/1e9
 }
 
-func clockAdvance(dt float64, ns int64) {
+func clockAdvance(sec, ms int) {
 	mu.Lock()
-	nowNs += ns
+	nowNs += int64(sec)*1000000000 + int64(ms)*1000000
 	mu.Unlock()
 }
 
